@@ -63,18 +63,29 @@ def _complete_executions(ctx, progs, res, tag):
 
 def run(ctx):
     quick = ctx.quick
-    pool = M.programs(ctx, 24 if quick else 120, 3, 4)
+    pool = M.programs(ctx, 50 if quick else 160, 3, 4)
     ref = M.reference(ctx, pool)
+    def interleavings(p):          # upper bound of the number of unreduced executions: multinomial of the transition counts
+        nsub = {"lock": 2, "acq": 2, "bar": 2, "put": 2, "get": 2, "cvwait": 3, "cvwaitfor": 3}
+        ns = [sum(nsub.get(o["op"], 1) for o in a) for a in p["actors"]]
+        r, tot = 1, 0
+        for n in ns:
+            for k in range(1, n + 1):
+                tot += 1
+                r = r * tot // k
+        return r
     cand = [i for i in range(len(pool)) if all(o["end"] == "normal" for o in ref[i])]
-    ctx.cov["programs_generated"] = len(pool)
     ctx.cov["programs_without_deadlock"] = len(cand)
-    want = 8 if quick else 40
+    cand = [i for i in cand if interleavings(pool[i]) <= 30 * (400 if quick else 2500)]
+    ctx.cov["programs_generated"] = len(pool)
+    ctx.cov["programs_small_enough_a_priori"] = len(cand)
+    want = 14 if quick else 50
     cap = 400 if quick else 2500            # executions of the reduction-none run per program (budget by counts)
     # reduction none first: programs with too many executions are left out
     progs, none_res = [], {}
     for start in range(0, len(cand), want):
         batch = [pool[i] for i in cand[start:start + want]]
-        rn = M.explore_all(ctx, batch, ["none"], [], timeout=600)
+        rn = M.explore_all(ctx, batch, ["none"], [], timeout=90 if quick else 600)
         for (j, red), r in rn.items():
             if r["timeout"] or r["rc"] != 0 or not (0 < len(r["traces"]) <= cap):
                 ctx.cov["programs_left_out_too_many_executions"] = ctx.cov.get("programs_left_out_too_many_executions", 0) + 1
@@ -125,12 +136,13 @@ def run(ctx):
     for r in vlib.parallel_map(classes, list(enumerate(chunks)), nproc=6):
         ctx.add_tlc(r)
         for line in r.prints:
-            if line.startswith('<<"NF"'):
-                v = vlib.parse_tla_value(line)
-                nf[v[1]] = v[2]
-            elif line.startswith('<<"MISMATCH"'):
-                v = vlib.parse_tla_value(line)
-                mism.setdefault(v[1], []).append(v[2:])
+            if not line.startswith('"{'):
+                continue
+            v = json.loads(json.loads(line))
+            if "nf" in v:
+                nf[v["nf"]] = v["seq"]
+            elif "mismatch" in v:
+                mism.setdefault(v["mismatch"], []).append([v["kind"], v["ev"], v["expected"], v["got"]])
     ctx.cov["traces_validated_against_impl"] += len(recs)
     if len(nf) != len(recs):
         raise vlib.InfraError("HbClasses printed %d normal forms for %d executions" % (len(nf), len(recs)))
